@@ -108,6 +108,25 @@ func checkC12(c C12Case) *Violation {
 			}
 		}
 	}
+	// 3b. an empty input is an empty input, whether it is an empty pipe, an empty file or /dev/null
+	if c.HasInput && c.Input == "" {
+		r := Run{Argv: append([]string{}, c.Argv...), NoStdin: true}.Exec()
+		if !sameOutcome(ref, r) {
+			return vio("input-path:devnull", "%s: empty input from /dev/null differs from an empty pipe\npipe: %s\n/dev/null: %s", what, show(ref), show(r))
+		}
+	}
+	// 3c. -o may name the input file itself (annotating a piece in place): the input is read before the output is opened
+	if c.HasInput && ref.Exit == 0 && len(c.Input) > 0 {
+		files := map[string]string{}
+		for k, v := range c.Files {
+			files[k] = v
+		}
+		files["piece.txt"] = c.Input
+		r := Run{Argv: append(append([]string{}, c.Argv...), "@piece.txt", "-o", "@piece.txt"), Files: files, OutArg: "piece.txt"}.Exec()
+		if r.Exit != 0 || len(r.Stdout) != 0 || !bytes.Equal(r.OutFile, ref.Stdout) {
+			return vio("output-path:in-place", "%s FILE -o FILE (same file): exit %d, %d bytes on stdout, file holds %d bytes; the plain run prints %d bytes%s", what, r.Exit, len(r.Stdout), len(r.OutFile), len(ref.Stdout), ctx)
+		}
+	}
 	// 4. -o FILE holds exactly the stdout bytes; stdout stays empty
 	// the -o path is a fresh file in one run and an existing, longer file (left by "an earlier run") in the other
 	ofiles := map[string]string{}
